@@ -84,6 +84,9 @@ EMBEDDINGS = {
     # scale like an area -- at 1e-6 units it exceeds the area of a lattice cell, at 1e9 units absolute slacks become visible
     "micro": Emb("micro", F(1, 10 ** 6)),
     "huge": Emb("huge", 10 ** 9),
+    # large AND not representable in binary (e.g. a 4 cm die in 0.1 nm steps): the rounding of a coordinate (one ulp of ~1e7)
+    # times the length of a rectangle side is an area far above sqrt(distance tolerance)
+    "mega": Emb("mega", F(12345678, 10)),
 }
 ORIGIN0 = ["int", "flt", "half", "dec", "third", "big", "tiny"]
 ALL = ORIGIN0 + ["off"]
